@@ -24,6 +24,9 @@ BUILT = {
  "C13": ("exploration", "runtime monitor: trace-specification checking ('no component / line evaluated after stop or skip fires', 'advance(n) lines have no effects', 'last() fires once on the final line') on LineEvent + EvalEvent hooks, plus the reference evaluator",
          "Systematic product of control form x position x firing line x scan window x blank layout (about 20k real runs) plus random two-control / onmatch programs; per line the pushes that happened, the components evaluated, matches and counters are compared with the documented behaviour. Known findings F9/F9b attributed by exact emulation.",
          "reference semantics from stop.md/advance.md/last.md; A1 corner (scan window ending on a blank record) not decided", "DESIGN.md#c13"),
+ "C15": ("exploration", "runtime monitor: relational comparison of real runs with and without the generated outer comment (LineEvent traces, capture printer, captured stdout) and a partition check of collected vs unmatched lines against the records the LineEvents show were read",
+         "Generated programs x files x all mode combinations x arbitrary extra metadata fields and comment placement: metadata values as written, scan/match parts untouched, no-matches = complement within scanned lines, no-run produces no event/line/variable, no-default silences only stdout, keep => collected+unmatched partition the records read.",
+         "the un-commented run is the oracle for the commented one; generated values contain no colon (documented field syntax)", "DESIGN.md#c15"),
  "C16": ("exploration", "runtime monitor: snapshot hook at the entry of Print._decide_match + capture printers; expected text substituted from the generator's own chunk list",
          "Templates are built from chunks in stratified arrangements and executed as print / print.onmatch / print.once; every printed entry is compared with the template whose references are replaced by the values the real run held at that instant, plus entry counts, onmatch/once behaviour and printer fan-out. Known finding F10b (adjacent references) attributed by exact emulation.",
          "values 'current at that point' = snapshot of the real run's state at Print._decide_match entry", "DESIGN.md#c16"),
